@@ -285,7 +285,7 @@ func TestC10(t *testing.T) {
 	col.Exhaustive(fmt.Sprintf("full matrix: %d configuration classes x 8 flag subsets {--stub, --ignore-missing-params, --ignore-missing-services} x 5 output pre-states x 5 input faults, every cell with and without --quiet", len(c10Classes)))
 
 	// random configurations inside random cells
-	setRapidChecks(pick(25, 300))
+	setRapidChecks(pick(25, 2000))
 	opts := gen.All()
 	opts.PkgMain = true
 	rapid.Check(t, func(rt *rapid.T) {
